@@ -105,6 +105,12 @@ CHECKS = {
           'returned in list order, copied in bulk and renumbered; both refuse before building anything; SortSubset keeps list order; the backward closure and the alias-renumbering refresh they depend on satisfy the C14 / C07 rules.',
   'note': 'Preservation of correctness status and typification of each copied constituent is a value-level statement and is not decided. One defect found by r2 (single-pass selection) was repaired in /repo.',
  },
+ 'C08': {
+  'technique': 'field-coverage and both-sides rules over the resolved call graph; effect summary of the token-replacement loop (span, offset accumulation, guards); table extraction of the token filter; iteration-direction rules',
+  'text': 'Decides the structural conditions for "all and only the mentions": every name-bearing text member is translated, formal text through a lexer over an unmodified copy with whole-token replacement at [token start + accumulated offset, + old length) and the offset accumulated once per replacement, '
+          'under a filter that accepts exactly the three global identifier kinds; references are rewritten last-to-first from a scanner that finds adjacent references; every RSCore entry point rewrites formal part and texts, and renaming with substitution translates the whole storage on both sides.',
+  'note': '"Same schema up to renaming" (dependency structure, statuses, typifications) and the UTF-8 byte/code-point arithmetic of the iterator are not decided. Whole-identifier matching relies on the MATH lexer DFA (longest match), decided under C05.',
+ },
 }
 
 _PENDING = 'rule module not yet implemented in this round; see DESIGN.md section 4 for the clauses planned'
